@@ -107,14 +107,14 @@ class Calls(SpecRT, Strings, Loops, AnyVals, AbsSeqs):
     def heap_array(self, st, cname, field, kind):
         key = (cname, field)
         if key not in st.heap:
+            # the initial array of a field has a deterministic name: every state descends from one
+            # initial state, so a field first touched on different paths denotes the same initial heap
+            tagn = '%s_%s' % (cname.replace('.', '_'), field)
             if kind.startswith('opt:'):
-                st.heap[key] = z3.Array(fresh_name('H_%s_%s' % (cname.rsplit('.', 1)[-1], field)), I,
-                                        self.sort_of(kind[4:]))
-                st.heap[(cname, field + '?')] = z3.Array(
-                    fresh_name('H_%s_%s_none' % (cname.rsplit('.', 1)[-1], field)), I, B)
+                st.heap[key] = z3.Array('H0_' + tagn, I, self.sort_of(kind[4:]))
+                st.heap[(cname, field + '?')] = z3.Array('H0_' + tagn + '_none', I, B)
             else:
-                st.heap[key] = z3.Array(fresh_name('H_%s_%s' % (cname.rsplit('.', 1)[-1], field)), I,
-                                        self.sort_of(kind))
+                st.heap[key] = z3.Array('H0_' + tagn, I, self.sort_of(kind))
         return st.heap[key]
 
     def read_field(self, st, ref, field, kind=None):
@@ -125,6 +125,12 @@ class Calls(SpecRT, Strings, Loops, AnyVals, AbsSeqs):
             return VCLASS
         if kind.startswith('const:'):
             return self.const_field(st, kind[6:])
+        if kind.startswith('model:'):
+            hk = self.ex.hooks.get('model_field')
+            r = hk(st, ref, field, kind) if hk else None
+            if r is None:
+                raise Unsupported('modelled field %s.%s' % (cname, field))
+            return r
         arr = self.heap_array(st, cname, field, kind)
         t = z3.Select(arr, ref.t)
         if kind.startswith('opt:'):
@@ -135,7 +141,15 @@ class Calls(SpecRT, Strings, Loops, AnyVals, AbsSeqs):
     def write_field(self, st, ref, field, v, kind=None):
         cname = self.field_owner(ref.cname, field)
         kind = kind or self.field_kind(cname, field)
+        if kind == 'vclass' or kind.startswith('const:') or kind.startswith('model:'):
+            hk = self.ex.hooks.get('model_write')
+            if hk and hk(st, ref, field, v, kind):
+                return
+            raise Unsupported('store to modelled field %s.%s' % (cname, field))
         arr = self.heap_array(st, cname, field, kind)
+        hk0 = self.ex.hooks.get('before_write')
+        if hk0:
+            hk0(st, ref, cname, field, v, kind)
         if kind.startswith('opt:'):
             narr = st.heap[(cname, field + '?')]
             if isinstance(v, SNone):
@@ -316,6 +330,8 @@ class Calls(SpecRT, Strings, Loops, AnyVals, AbsSeqs):
 
     def setattr(self, ov, attr, v, st, fr, node=None):
         ex = self.ex
+        if isinstance(ov, SOpt):
+            ov = ov.inner       # AttributeError on None is outside A-exc
         if isinstance(ov, SRef) and isinstance(ov.cls, ClassInfo):
             kind = self.field_kind(ov.cname, attr)
             if kind is None:
@@ -391,6 +407,12 @@ class Calls(SpecRT, Strings, Loops, AnyVals, AbsSeqs):
     def equal(self, a, b, st, fr):
         "== on non-int kinds; returns outcomes with SBool or None when not applicable"
         ex = self.ex
+        if isinstance(a, SBool) and isinstance(b, SBool):
+            return ex.ok(SBool(a.t == b.t), st)
+        if isinstance(a, SInt) and isinstance(b, SInt):
+            return ex.ok(SBool(a.t == b.t), st)
+        if isinstance(a, SVal) and isinstance(b, SVal):
+            return ex.val_compare_eq(a, b, st, fr) if hasattr(ex, 'val_compare_eq') else self.val_compare('Eq', a, b, st, fr)
         if isinstance(a, SStr) and isinstance(b, SStr):
             if a.lit is not None and b.lit is not None:
                 return ex.ok(SBool(a.lit == b.lit), st)
@@ -635,6 +657,20 @@ class Calls(SpecRT, Strings, Loops, AnyVals, AbsSeqs):
     def pseudo_subscript(self, c, i, st, fr):
         if c.cname == 'dict':
             return self.dict_getitem(c, i, st, fr)
+        if c.cname.startswith('seq:') and isinstance(i, SInt):
+            from .models import seqlen, seqelem, validcid
+            n = seqlen(c.t)
+            st.assume(n >= 0)
+            idx = z3.If(i.t >= 0, i.t, n + i.t)
+
+            def ok(s):
+                e = seqelem(c.t, idx)
+                v = self.wrap(c.cname[4:], e)
+                if c.cname == 'seq:int':
+                    # A-profile (C15 post-parse invariant): rankings hold ids of non-withdrawn candidates
+                    s.assume(validcid(e))
+                return self.ex.ok(v, s)
+            return self.ex.split(z3.And(idx >= 0, idx < n), st, ok, lambda s: self.ex.exc('IndexError', s))
         return None
 
     def setitem(self, c, i, v, st, fr, node=None):
